@@ -50,7 +50,7 @@ Definition version_exists : M bool :=
 Definition parse_version : M Z :=
   ignore_err read_tag_length ;;;
   b <- read_bytes 1 ;;
-  ret (Z.of_N ((hd 0%N b + 1) mod 256)).
+  ret (Z.of_N (hd 0%N b) + 1)%Z.   (* int(readUint8) + 1: no wrap at 255 *)
 Definition next_update_exists : M bool := peek_bool (peek_tag_length 0) (fun tl => N.eqb (t_tag tl) TAG_UTC).
 Definition revoked_list_exists : M bool := peek_bool (peek_tag_length 0) (fun tl => N.eqb (t_tag tl) TAG_SEQ).
 (* IsContextSpecificTagWithId(0, tl): (tag & 0xF0) == 0xa0 && (tag & 0x0F) == 0 *)
